@@ -1,8 +1,9 @@
 (* C14 translator tie: the statements exported by Props/C14Gen.v, over Model-level definitions only. *)
 From Coq Require Import ZArith QArith List Bool Lia.
-From DV Require Import Model.PyPrims Model.Tree Model.C14Model Model.C14Spec Model.C14GenPrims Gen.Pdm
+From DV Require Import Model.PyPrims Model.Tree Model.C14Model Model.C14Spec Model.C14Spec2 Model.C14GenPrims Model.C14GenObj Model.C14GenMrcaPrims Gen.Pdm
   Proofs.C14Dict Proofs.C14Pdm Proofs.C14Mrca Proofs.C14GenBase Proofs.C14GenMirror Proofs.C14GenMrca
-  Proofs.C14GenComp Proofs.C14GenForm Proofs.C14GenKernels.
+  Proofs.C14GenComp Proofs.C14GenForm Proofs.C14GenKernels Proofs.C14GenTreesBase Proofs.C14GenUpgma Proofs.C14GenNj Proofs.C14GenTm
+  Proofs.C14Clu Proofs.C14Proofs Proofs.C14UpgmaFull Proofs.C14Qcrit Proofs.C14FourPoint.
 Import ListNotations.
 Open Scope Z_scope.
 
@@ -151,6 +152,92 @@ Lemma model_mean_nearest_taxon_distance_top p filt w n :
   mean_of p w n mins.
 Proof. exact (mean_nearest_taxon_distance_kernel p filt w n). Qed.
 
+(* the main loops of upgma_tree / nj_tree *)
+Lemma gen_upgma_tree_top (none_key : Z) (M : tbl Q) (order : list Z) (T : qtree) :
+  NoDup order -> mcomplete M order -> upgma_tree M order = Ok T ->
+  exists i h, PDM_upgma_tree none_key (length order) M order = Ok (i, h) /\
+              forall fuel, (qdepth T <= fuel)%nat -> rebuild fuel h i = Ok T.
+Proof. apply gen_upgma_tree_ok. Qed.
+
+Lemma gen_nj_tree_top (none_key : Z) (M : tbl Q) (order : list Z) (T : qtree) :
+  NoDup order -> mcomplete M order -> nj_tree M order = Ok T ->
+  exists i h, PDM_nj_tree none_key (length order) M order = Ok (i, h) /\
+              forall fuel, (qdepth T <= fuel)%nat -> rebuild fuel h i = Ok T.
+Proof. apply gen_nj_tree_ok. Qed.
+
+Lemma gen_upgma_recovers_top (none_key : Z) t p h order :
+  rbin t -> good_leaves t -> t_kids t <> [] -> positive_internal t -> nonneg_lengths t -> equidistant h t ->
+  compile_from_tree t = Ok p ->
+  NoDup order -> (forall a, In a order <-> In (Some a) (leaf_taxa t)) ->
+  exists T i hp, PDM_upgma_tree none_key (length order) (qtable p true) order = Ok (i, hp) /\
+                 (forall fuel, (qdepth T <= fuel)%nat -> rebuild fuel hp i = Ok T) /\
+                 qsame_rooted (tq t) T.
+Proof.
+  intros R G Hk P Nn E Ec N Hin.
+  destruct (upgma_recovers_ultrametric_l t p h order R G Hk P Nn E Ec N Hin) as [T [ET QS]].
+  assert (C : mcomplete (qtable p true) order).
+  { destruct (pdm_exact_p t G Hk) as [p' [E' [Hv _]]]. rewrite Ec in E'. assert (p' = p) by congruence. subst p'.
+    intros a b Ha Hb _. destruct (Hv a b (proj1 (Hin a) Ha) (proj1 (Hin b) Hb)) as [r [d [s [_ [_ [_ [T1 _]]]]]]].
+    rewrite qtable_get, T1. discriminate. }
+  destruct (gen_upgma_tree_ok none_key _ _ _ N C ET) as [i [hp [EG RB]]].
+  exists T, i, hp. repeat split; assumption.
+Qed.
+
+Lemma gen_nj_recovers_small_top (none_key : Z) M order :
+  NoDup order -> order <> [] -> (length order <= 5)%nat ->
+  mcomplete M order -> msymmetric M order -> mfour_point_strict M order ->
+  exists T i hp, PDM_nj_tree none_key (length order) M order = Ok (i, hp) /\
+                 (forall fuel, (qdepth T <= fuel)%nat -> rebuild fuel hp i = Ok T) /\
+                 forall a b, In a order -> In b order -> a <> b -> exists q, qdist T a b = Some q /\ (q == mval M a b)%Q.
+Proof.
+  intros N Ne L C S F. destruct (nj_recovers_small_l M order N Ne L C S F) as [T [ET D]].
+  destruct (gen_nj_tree_ok none_key _ _ _ N C ET) as [i [hp [EG RB]]].
+  exists T, i, hp. repeat split; assumption.
+Qed.
+
+Lemma gen_nj_recovers_tree_small_top (none_key : Z) t p order :
+  rbin t -> good_leaves t -> t_kids t <> [] -> positive_internal t -> nonneg_lengths t ->
+  compile_from_tree t = Ok p ->
+  NoDup order -> order <> [] -> (length order <= 5)%nat -> (forall a, In a order -> In (Some a) (leaf_taxa t)) ->
+  exists T i hp, PDM_nj_tree none_key (length order) (qtable p true) order = Ok (i, hp) /\
+                 (forall fuel, (qdepth T <= fuel)%nat -> rebuild fuel hp i = Ok T) /\
+                 forall a b, In a order -> In b order -> a <> b ->
+                   exists q d, qdist T a b = Some q /\ dist t a b = Some d /\ (q == uq d)%Q.
+Proof.
+  intros R G Hk P Nn Ec N Ne L5 Hin.
+  destruct (nj_recovers_tree_small t p order R G Hk P Nn Ec N Ne L5 Hin) as [T [ET HD]].
+  assert (C : mcomplete (qtable p true) order).
+  { destruct (pdm_exact_p t G Hk) as [p' [E' [Hv _]]]. rewrite Ec in E'. assert (p' = p) by congruence. subst p'.
+    intros a b Ha Hb _. destruct (Hv a b (Hin a Ha) (Hin b Hb)) as [r [d [s [_ [_ [_ [T1 _]]]]]]].
+    rewrite qtable_get, T1. discriminate. }
+  destruct (gen_nj_tree_ok none_key _ _ _ N C ET) as [i [hp [EG RB]]].
+  exists T, i, hp. repeat split; assumption.
+Qed.
+
+(* Tree.mrca as a whole, treemeasure.patristic_distance *)
+Lemma gen_tree_mrca_top fuel ns mt arg start updated :
+  (size (mt_tree mt) <= fuel)%nat ->
+  let kw := mkKw start
+                 (match arg with ByMask m => Some m | _ => None end)
+                 (match arg with ByTaxa l => Some l | _ => None end)
+                 (match arg with ByLabels l => Some l | _ => None end)
+                 (Some updated) in
+  match tree_mrca false ns mt arg start updated with
+  | (Ok r, mt') => Tree_mrca fuel ns mt kw = Ok (r, mt')
+  | (Err e, _) => Tree_mrca fuel ns mt kw = Err e
+  | (OutOfFuel, _) => True
+  end.
+Proof. intro Hf. exact (gen_tree_mrca_eq fuel ns mt arg start updated Hf). Qed.
+
+Lemma gen_tm_patristic_top fuel ns mt a b updated :
+  (size (mt_tree mt) < fuel)%nat ->
+  match tm_patristic false ns mt a b updated with
+  | (Ok d, mt') => NoDup (ids (mt_tree mt')) -> TM_patristic_distance fuel ns mt a b updated = Ok (d, mt')
+  | (Err e, mt') => NoDup (ids (mt_tree mt')) -> TM_patristic_distance fuel ns mt a b updated = Err e
+  | (OutOfFuel, _) => True
+  end.
+Proof. apply gen_tm_patristic_eq. Qed.
+
 (* non-vacuity: a tree in the domain of gen_compile_from_tree_top, and the two sides computed *)
 Definition gen_ex_tree : tree :=
   T 0 None None None
@@ -175,3 +262,13 @@ Lemma gen_tree_mrca_descent_example_top :
   Tree_mrca_descent 5 [(2, 1); (3, 2); (1, 3); (4, 4); (0, 7)] 3 gen_ex_tree
   = Ok (Some (T 1 None None (Some 1024) [T 2 (Some 10) None (Some 512) []; T 3 (Some 11) None None []])).
 Proof. vm_compute. reflexivity. Qed.
+
+Definition gen_ex_matrix : tbl Q :=
+  [(10, [(11, (2 # 1)%Q); (12, (4 # 1)%Q)]); (11, [(10, (2 # 1)%Q); (12, (4 # 1)%Q)]); (12, [(10, (4 # 1)%Q); (11, (4 # 1)%Q)])].
+
+Lemma gen_tree_builders_example_top :
+  (do r <- PDM_upgma_tree (-1) 3 gen_ex_matrix [10; 11; 12] ;; rebuild 5 (snd r) (fst r)) = upgma_tree gen_ex_matrix [10; 11; 12] /\
+  (do r <- PDM_nj_tree (-1) 3 gen_ex_matrix [10; 11; 12] ;; rebuild 5 (snd r) (fst r)) = nj_tree gen_ex_matrix [10; 11; 12] /\
+  upgma_tree gen_ex_matrix [10; 11; 12]
+  = Ok (QT 4 None None [QT 2 (Some 12) (Some (2 # 1)%Q) []; QT 3 None (Some (1 # 1)%Q) [QT 0 (Some 10) (Some (1 # 1)%Q) []; QT 1 (Some 11) (Some (1 # 1)%Q) []]]).
+Proof. split; [vm_compute; reflexivity|]. split; vm_compute; reflexivity. Qed.
